@@ -734,8 +734,10 @@ impl Matcher for Printf {
                 matcher_io.set_exit_code(1);
             }
         } else {
-            self.print(file_info, &mut *matcher_io.deps.get_output().borrow_mut())
-                .unwrap();
+            let result = self.print(file_info, &mut *matcher_io.deps.get_output().borrow_mut());
+            if let Err(e) = result {
+                matcher_io.standard_output_failed(&e);
+            }
         }
 
         true
